@@ -670,6 +670,16 @@ class Enc:
         strs = []
         for t in texts:
             strs += self.tl(8, list(t))
+        only_system_before = len(self.syms) - len(texts) == len(SYSTEM)
+        if self.free and self.rng.random() < 0.15:
+            # a non-string entry of `symbols` still occupies a symbol ID (a slot without text)
+            strs += self.rng.choice([[0x21, 0x05], [0x0F], [0x8F], [0xB0], [0x11]])
+            self.syms.append(None)
+        if only_system_before and self.free and self.rng.random() < 0.5:
+            # nothing but the system table is in force: a replacing table says the same thing
+            body = [0x87] + self.tl(11, strs)
+            st = self.tl(13, body)
+            return self.tl(14, [0x81, 0x83] + st)
         body = [0x86, 0x71, 0x03] + [0x87] + self.tl(11, strs)
         st = self.tl(13, body)
         return self.tl(14, [0x81, 0x83] + st)
@@ -682,6 +692,10 @@ class Enc:
             self.pending = []
             if self.free and self.rng.random() < 0.08:
                 out += self.nop()
+            if self.free and self.rng.random() < 0.07:
+                # a version marker in mid-stream resets the symbol context to the system table
+                out += [0xE0, 1, 0, 0xEA]
+                self.syms = list(SYSTEM)
             e = self.value(v)
             if self.pending:
                 out += self.lst_append(self.pending)
